@@ -695,6 +695,7 @@ WITNESSES = [
     ('w_shl', 'def w_shl(a: int, c: bool) -> int:\n\tv = c << c\n\treturn 0\n', (3, True)),
     ('w_list', 'def w_list(a: int, c: bool) -> int:\n\tv = [1, 2.0]\n\treturn 0\n', (3, True)),
     ('w_neg', 'def w_neg(a: int, c: bool) -> int:\n\tv = -c\n\tw = ~c\n\treturn 0\n', (3, True)),
+    ('w_listcls', "def w_listcls(a: int, c: bool) -> int:\n\tv = [[1], ['a']]\n\treturn 0\n", (3, True)),
     ('w_striter', "def w_striter(a: int, c: bool) -> int:\n\tv = [ch for ch in 'ab']\n\treturn 0\n", (3, True)),
 ]
 
